@@ -125,11 +125,14 @@ class Index:
                 pass
         if since is not None:
             since = since.to_bytes(4, "big")
-        if until is not None:
+        if until is not None and until < 0xFFFFFFFF:
+            # seek to the first key that is later than until
+            add_time = (until + 1).to_bytes(4, "big")
             until = until.to_bytes(4, "big")
-            add_time = b"%s\x00" % until
         else:
-            add_time = b""
+            if until is not None:
+                until = until.to_bytes(4, "big")
+            add_time = b"\xff"
 
         prev = cursor.prev
         get_key = cursor.key
@@ -142,7 +145,7 @@ class Index:
                     match = next(matchiter)
                 except StopIteration:
                     return None, None
-                skipped = cursor.set_range(match + add_time + b"\xff")
+                skipped = cursor.set_range(match + add_time)
                 if skipped:
                     prev()
                 return match, skipped
